@@ -372,6 +372,32 @@ func checkErrorStop(r *eng.Run, kind byte, w []byte, nCalls int, sentinel0 error
 			}
 		}
 	}
+	if full && nCalls > 0 {
+		// the handler first runs a nested traversal / skip on the SAME Buffer that fails with an
+		// error of its own, then returns a different error: that one must come back
+		inner := errors.New("inner failure")
+		outer := errors.New("outer error (wraps context)")
+		for k := 0; k < nCalls && k < 4; k++ {
+			buf := &rjson.Buffer{}
+			made := 0
+			_, _, err := traverse(kind, w, buf, func(i int, data []byte) answer {
+				made = i + 1
+				if i != k {
+					return answer{mode: 0}
+				}
+				rjson.HandleArrayValues([]byte(`[1,[2],3]`), rjson.ArrayValueHandlerFunc(func([]byte) (int, error) { return 0, inner }), buf)
+				rjson.HandleObjectValues([]byte(`{"a":{"b":1}}`), rjson.ObjectValueHandlerFunc(func(_, _ []byte) (int, error) { return 0, inner }), buf)
+				rjson.SkipValue([]byte(`[1,`), buf)
+				return answer{mode: 3, n: 0, err: outer}
+			})
+			n++
+			if err != outer || made != k+1 {
+				r.Violation(eng.Replay{Engine: "handler", Entry: entryOf(kind), Sig: fmt.Sprintf("error-stop/nested-failure-on-same-buffer/k=%d/%s", k, shortSig(w)), InputB64: append([]byte(nil), w...),
+					Expected: fmt.Sprintf("the outer handler's own error, %d calls", k+1), Got: fmt.Sprintf("%s (identical=%v), %d calls", errStr(err), err == outer, made),
+					Extra: map[string]interface{}{"kind": string(kind), "k": k}})
+			}
+		}
+	}
 	sentinel := sentinel0
 	for k := 0; k < nCalls && k < 8; k++ {
 		for _, base := range []int{0, 1} {
